@@ -15,7 +15,7 @@ Record sections_ok (d : odfdoc) : Prop := mkSO {
   so_styles : sect (q_off "styles") (d_styles d); so_auto : sect (q_off "automatic-styles") (d_auto d);
   so_master : sect (q_off "master-styles") (d_master d); so_body : sect (q_off "body") (d_body d) }.
 
-Definition used_c (d : odfdoc) := used_auto_styles RA [d_styles d; d_auto d; d_body d] (d_auto d).
+Definition used_c (d : odfdoc) := used_auto_styles RA [d_styles d; d_body d] (d_auto d).
 Definition used_s (d : odfdoc) := used_auto_styles RA [d_master d] (d_auto d).
 Definition csec (t : node) : node := match t with Elem q a ks => Elem q a (map cn ks) | t => t end.
 
